@@ -43,6 +43,9 @@ func (o *Obligation) Query(models bool) string {
 	sb.WriteString("(set-logic ALL)\n")
 	sb.WriteString(fv.TE.Decls())
 	sb.WriteString(rawPrelude)
+	for _, ax := range memAxioms() {
+		sb.WriteString("(assert " + ax + ")\n")
+	}
 	sb.WriteString(arithPrelude)
 	if fv.usesBSeq() {
 		sb.WriteString(bseqPrelude)
